@@ -105,3 +105,122 @@ Proof.
     + rewrite (log_last_wf _ _ Wn) by discriminate. rewrite Ln. unfold lenS in *. simpl length in Ln. lia.
   - unfold sidxS. simpl p_snap. rewrite S1. rewrite Ln. unfold lenS in *. repeat split; lia.
 Qed.
+
+(* ---------------------------------------------------------------- the leader loop with SnapshotDone events *)
+Definition snap_applied (s : node) (m : snapmeta) : Prop := 1 <= sn_index m /\ sn_index m <= n_commit s.
+
+Inductive loop_stepS : loop_st -> event -> loop_st -> Prop :=
+| LSev : forall st ev st', loop_step st ev st' -> loop_stepS st ev st'
+| LSsnap : forall st m code s',
+    snap_applied (lp_node st) m ->                                   (* the FSM snapshot reports an applied position *)
+    run_event (settle (lp_node st)) (ESnapDone m) = Ret (code, s') ->
+    loop_stepS st (ESnapDone m) {| lp_node := s'; lp_prop := lp_prop st; lp_comm := lp_comm st ++ n_commits s' |}.
+
+Inductive loop_runS : loop_st -> list event -> loop_st -> Prop :=
+| loopS_nil : forall st, loop_runS st [] st
+| loopS_cons : forall st ev st1 evs st2, loop_stepS st ev st1 -> loop_runS st1 evs st2 -> loop_runS st (ev :: evs) st2.
+
+Lemma loop_runS_snoc st evs st1 ev st2 : loop_runS st evs st1 -> loop_stepS st1 ev st2 -> loop_runS st (evs ++ [ev]) st2.
+Proof.
+  intros H1 H2. induction H1; simpl.
+  - econstructor; [exact H2 | constructor].
+  - econstructor; eauto.
+Qed.
+
+Lemma loop_run_runS st evs st' : loop_run st evs st' -> loop_runS st evs st'.
+Proof. induction 1; [constructor | econstructor; [apply LSev; eassumption | assumption]]. Qed.
+
+Lemma skipn_skipn {A} (x y : nat) (l : list A) : skipn x (skipn y l) = skipn (x + y) l.
+Proof. revert l. induction y as [|y IH]; intros l; [rewrite Nat.add_0_r; reflexivity|]. destruct l; [rewrite !skipn_nil; reflexivity|]. rewrite Nat.add_succ_r. simpl. apply IH. Qed.
+
+Lemma firstn_split {A} (l : list A) a k : firstn (a + k) l = firstn a l ++ firstn k (skipn a l).
+Proof. revert a. induction l as [|x l IH]; intros a; destruct a; simpl; try rewrite firstn_nil; auto. rewrite IH. reflexivity. Qed.
+
+Definition JS (c0 T0 : N) (st : loop_st) : Prop :=
+  let s := lp_node st in
+  exists b, preS b s /\ n_role s = Leader /\ p_term (n_p s) = T0 /\ c0 <= n_commit s /\
+            lp_comm st = firstn (N.to_nat (n_commit s - c0)) (lp_prop st) /\
+            N.of_nat (length (lp_prop st)) + c0 = b + lenS (n_p s) /\
+            skipn (N.to_nat (b - c0)) (lp_prop st) = skipn (N.to_nat (c0 - b)) (p_log (n_p s)).
+
+Lemma JS_start s0 : loop_start_snap s0 -> JS (n_commit s0) (p_term (n_p s0)) {| lp_node := s0; lp_prop := []; lp_comm := [] |}.
+Proof.
+  intros H0. destruct (loop_start_pre s0 H0) as [P0 Hc]. destruct H0 as [Hr _].
+  exists (base_of (n_p s0)). simpl. split; [exact P0|]. split; [exact Hr|]. split; [reflexivity|]. split; [lia|].
+  split; [rewrite firstn_nil; reflexivity|]. split; [lia|].
+  rewrite skipn_nil. symmetry. apply skipn_all2. unfold lenS in Hc. lia.
+Qed.
+
+Lemma JS_step c0 T0 st ev st' : JS c0 T0 st -> loop_stepS st ev st' -> JS c0 T0 st'.
+Proof.
+  intros [b [P [Hr [Ht [Hc [Ecomm [Elen Eov]]]]]]] Hstep.
+  pose proof P as [_ [_ [_ [Pb Pc]]]].
+  destruct Hstep as [st ev st' Hst | st m code s' Hm Hrun].
+  - destruct Hst as [st ev code s' Hev Hrun Hr' Ht'].
+    destruct (event_lc1S b _ _ _ _ P Hr Hev Hrun Ht') as [P' [L' [C' K']]]. simpl in *.
+    exists b. simpl. split; [exact P'|]. split; [exact Hr'|]. split; [rewrite Ht'; exact Ht|]. split; [lia|].
+    set (x := lp_prop st) in *. set (lg := p_log (n_p (lp_node st))) in *. set (new := proposed_by (lp_node st) ev) in *.
+    assert (Lx : (N.to_nat (b - c0) <= length x)%nat) by (unfold lenS in *; lia).
+    assert (Ll : (N.to_nat (c0 - b) <= length lg)%nat) by (unfold lenS in *; fold lg in Pc; lia).
+    assert (Eov' : skipn (N.to_nat (b - c0)) (x ++ new) = skipn (N.to_nat (c0 - b)) (lg ++ new)).
+    { rewrite !skipn_app. rewrite Eov.
+      replace (N.to_nat (b - c0) - length x)%nat with 0%nat by lia.
+      replace (N.to_nat (c0 - b) - length lg)%nat with 0%nat by lia. reflexivity. }
+    split; [| split; [| rewrite L'; exact Eov']].
+    + rewrite K', L', Ecomm. unfold seg.
+      assert (Esk : skipn (N.to_nat (n_commit (lp_node st) - b)) (lg ++ new) =
+                    skipn (N.to_nat (n_commit (lp_node st) - c0)) (x ++ new)).
+      { replace (N.to_nat (n_commit (lp_node st) - b)) with (N.to_nat (n_commit (lp_node st) - b - (c0 - b)) + N.to_nat (c0 - b))%nat by lia.
+        rewrite <- skipn_skipn, <- Eov', skipn_skipn. f_equal. lia. }
+      rewrite Esk.
+      replace (N.to_nat (n_commit s' - c0)) with (N.to_nat (n_commit (lp_node st) - c0) + N.to_nat (n_commit s' - b - (n_commit (lp_node st) - b)))%nat by lia.
+      rewrite firstn_split. f_equal.
+      rewrite firstn_app. replace (N.to_nat (n_commit (lp_node st) - c0) - length x)%nat with 0%nat by (unfold lenS in *; lia).
+      simpl. rewrite app_nil_r. reflexivity.
+    + rewrite app_length. unfold lenS in *. rewrite L', app_length. unfold lg, x in *. lia.
+  - simpl in Hrun. unfold wrap0 in Hrun. cbv beta iota delta [bind] in Hrun.
+    destruct (snapshot_done (settle (lp_node st)) m) as [x1| |] eqn:E; try discriminate.
+    inversion Hrun. subst x1. clear Hrun.
+    assert (P0 : preS b (settle (lp_node st))) by exact P.
+    destruct Hm as [Hm1 Hm2].
+    destruct (snapdone_pre b _ m s' P0 Hm1 Hm2 E) as [b' [Hb1 [Hb2 [P' [L' [C' [K' [R' T']]]]]]]].
+    simpl in C', K', R', T', Hb2, L'.
+    exists b'. simpl. split; [exact P'|]. split; [rewrite R'; exact Hr|]. split; [rewrite T'; exact Ht|]. split; [lia|].
+    rewrite K', app_nil_r, C'. split; [exact Ecomm|].
+    set (x := lp_prop st) in *. set (lg := p_log (n_p (lp_node st))) in *.
+    assert (Ll : (N.to_nat (b' - b) <= length lg)%nat) by (unfold lenS in *; fold lg in Pc; lia).
+    split.
+    + unfold lenS in *. rewrite L', skipn_length. fold lg in Elen. lia.
+    + rewrite L', skipn_skipn.
+      destruct (N.le_gt_cases b' c0) as [Hle | Hgt].
+      * replace (N.to_nat (b' - c0)) with 0%nat by lia. replace (N.to_nat (b - c0)) with 0%nat in Eov by lia.
+        simpl in *. rewrite Eov. f_equal. lia.
+      * replace (N.to_nat (c0 - b')) with 0%nat by lia. simpl.
+        destruct (N.le_gt_cases c0 b) as [H1 | H1].
+        -- replace (N.to_nat (c0 - b)) with 0%nat in Eov by lia. simpl in Eov. rewrite <- Eov, skipn_skipn. f_equal. lia.
+        -- replace (N.to_nat (b - c0)) with 0%nat in Eov by lia. simpl in Eov. rewrite Eov, skipn_skipn. f_equal. lia.
+Qed.
+
+Lemma JS_run c0 T0 st evs st' : JS c0 T0 st -> loop_runS st evs st' -> JS c0 T0 st'.
+Proof. intros H Hr. induction Hr; auto. apply IHHr. eapply JS_step; eauto. Qed.
+
+(* THE CONTRACT for leaderships with SnapshotDone events, in the shape of Layer.step_ok *)
+Theorem leader_commits_own_suffix_snapdone_stepwise s0 evs st1 ev st2 :
+  loop_start_snap s0 -> loop_runS {| lp_node := s0; lp_prop := []; lp_comm := [] |} evs st1 -> loop_stepS st1 ev st2 ->
+  lp_comm st2 = lp_comm st1 ++ n_commits (lp_node st2) /\
+  lp_prop st2 = lp_prop st1 ++ proposed_by (lp_node st1) ev /\
+  prefix (lp_comm st1 ++ n_commits (lp_node st2)) (lp_prop st2).
+Proof.
+  intros H0 H1 H2.
+  pose proof (JS_step _ _ _ _ _ (JS_run _ _ _ _ _ (JS_start s0 H0) H1) H2) as [b [_ [_ [_ [_ [Ec _]]]]]].
+  assert (A : lp_comm st2 = lp_comm st1 ++ n_commits (lp_node st2) /\ lp_prop st2 = lp_prop st1 ++ proposed_by (lp_node st1) ev).
+  { destruct H2 as [st ev st' Hst | st m code s' Hm Hrun]; [destruct Hst; simpl; auto | simpl; rewrite app_nil_r; auto]. }
+  destruct A as [A1 A2]. split; [exact A1|]. split; [exact A2|]. rewrite <- A1, Ec.
+  eexists. symmetry. apply firstn_skipn.
+Qed.
+
+(* the leadership still leads, in the same term, after any such run *)
+Lemma loop_runS_leader s0 evs st :
+  loop_start_snap s0 -> loop_runS {| lp_node := s0; lp_prop := []; lp_comm := [] |} evs st ->
+  n_role (lp_node st) = Leader /\ p_term (n_p (lp_node st)) = p_term (n_p s0).
+Proof. intros H0 H1. destruct (JS_run _ _ _ _ _ (JS_start s0 H0) H1) as [b [_ [A [B _]]]]. auto. Qed.
